@@ -149,6 +149,23 @@ def orchestrator_oracles(ops, cls_size, cls_align=8):
         # --- a vector that owns a block has a non-null data pointer: the raw round trip must not be skipped
         if n in ("raw_part", "raw_parts") and res == "none" and hbefore is not None:
             out.append(("rawparts-null", i, "`%s`: as_mut_ptr() is null although the vector owns block %s" % (op.line, hbefore.get("blk"))))
+        # --- a never-allocated vector stays never-allocated unless elements or capacity are actually added
+        if before is not None and hbefore is None and before[1] == 0 and before[0] == 0 and after is not None and after[0] == 0 \
+                and (res == "ok" or res == "none" or res.startswith("some")):
+            adds = False
+            try:
+                if n in ("reserve", "reserve_exact", "try_reserve", "try_reserve_exact") and int(a[1]) > 0:
+                    adds = True
+            except (ValueError, IndexError):
+                adds = True
+            for tok in a[1:]:
+                m = re.search(r"\]h(\d+)-", tok)
+                if m and int(m.group(1)) > 0:
+                    adds = True          # a reservation from a non-zero lower size hint is capacity being added
+            if n in ("deserialize_in_place", "append", "clone_from", "swap", "from_raw_part", "from_raw_parts", "set_len"):
+                adds = True              # not decided by this rule
+            if not adds and (after[1] != 0 or hafter is not None):
+                out.append(("sentinel-noalloc", i, "`%s` on a never-allocated vector added nothing (len 0) but left capacity %d / block %s" % (op.line, after[1], (hafter or {}).get("blk"))))
         if before is not None and after is None:
             # the register is borrowed by the iterator it just handed out (drain / splice / drain_filter) or was consumed
             mr0 = must_reject(op, before[0], before[1])
